@@ -477,63 +477,116 @@ def functional(ctx, model_ok):
 
 
 # ------------------------------------------------------------------ traces of three real nodes (h_fwd)
-def trace_check(ctx):
-    """Runs the seeded scenarios of h_fwd in parallel and evaluates the judges of tools/props/c02/fwdjudge.py
-    on every trace. Returns (violating, coverage) where violating = [(index, params, violations, excerpt)]."""
+def _fwd_worker(args):
+    """One shard: run the scenarios, judge every trace, map it to model labels. Runs in a worker process."""
     import collections
     import subprocess
-    from props.c02 import fwdjudge as J
+    from props.c02 import fwdjudge as J, fwdmodel as FM
+    binp, seed, first, count, out = args
+    try:
+        rc = subprocess.call([binp, "run", str(seed), str(first), str(count), out], cwd=os.path.dirname(out),
+                             stdout=subprocess.DEVNULL, stderr=subprocess.DEVNULL, timeout=1700)
+    except subprocess.TimeoutExpired:
+        rc = 124
+    agg = collections.Counter()
+    violating, model_items = [], []
+    if rc != 0 or not os.path.exists(out):
+        violating.append((first, {}, [{"judge": "harness", "why": "h_fwd exited with %s for scenarios %d..%d" % (rc, first, first + count - 1), "step": 0}], []))
+        return violating, agg, model_items, 0
+    sc = J.parse(out)
+    total = 0
+    for idx in range(first, first + count):
+        recs = sc.get(idx)
+        if not recs:
+            violating.append((idx, {}, [{"judge": "harness", "why": "no trace for scenario %d" % idx, "step": 0}], []))
+            continue
+        V, F = J.judge(recs)
+        total += 1
+        for k, v in F.items():
+            if isinstance(v, int):
+                agg[k] += v
+            else:
+                agg["%s=%s" % (k, v)] += 1
+        labels, checks, info = FM.to_labels(recs)
+        agg["model_stop=" + info["stop"].split(" in phase")[0]] += 1
+        agg["model_labels"] += info["mapped_labels"]
+        agg["model_window_checks"] += info["window_checks"]
+        agg["model_crashes_mapped"] += info["crash_mapped"]
+        if labels and checks:
+            model_items.append((idx, labels, checks))
+        if V:
+            ex = [" ".join([kind] + ["%s=%s" % kv for kv in d.items() if kv[0] != "raw"]) + " @%d" % step
+                  for (_, step, kind, d) in recs
+                  if kind not in ("PERSISTFULL", "MGRPERSIST") and not (kind == "BLOCK" and not d.get("txs"))]
+            params = dict((k, v) for k, v in recs[0][3].items() if k != "raw") if recs[0][2] == "PARAMS" else {}
+            violating.append((idx, params, V, ex[-160:]))
+    if not violating:
+        os.remove(out)
+    return violating, agg, model_items, total
+
+
+def trace_check(ctx, model_ok):
+    """Runs the seeded scenarios of h_fwd in parallel, evaluates the judges of tools/props/c02/fwdjudge.py on
+    every trace and checks that Model/Fwd.v accepts the mapped traces (tools/props/c02/fwdmodel.py).
+    Returns (violating, coverage, mismatches)."""
+    import collections
+    import multiprocessing
+    import time as _t
+    from props.c02 import fwdmodel as FM
     shards = core.NPROC
     per_round = 250 if ctx.tier == "quick" else 1000
     rounds = 1 if ctx.tier == "quick" else 12
     binp = ctx.bin_path("h_fwd")
     agg = collections.Counter()
-    violating = []
+    violating, items = [], []
     total = 0
-    import time as _t
     t0 = _t.time()
+    jobs = []
     for rnd in range(rounds):
-        procs = []
         for sh in range(shards):
             first = (rnd * shards + sh) * per_round
-            out = os.path.join(ctx.tmp, "fwd_%d_%d.trace" % (rnd, sh))
-            pr = subprocess.Popen([binp, "run", str(ctx.seed), str(first), str(per_round), out], cwd=ctx.tmp,
-                                  stdout=subprocess.DEVNULL, stderr=subprocess.DEVNULL)
-            procs.append((pr, out, first))
-        for pr, out, first in procs:
-            try:
-                rc = pr.wait(timeout=1500)
-            except subprocess.TimeoutExpired:
-                pr.kill()
-                rc = 124
-            if rc != 0 or not os.path.exists(out):
-                violating.append((first, {}, [{"judge": "harness", "why": "h_fwd exited with %s for scenarios %d..%d" % (rc, first, first + per_round - 1), "step": 0}], []))
-                continue
-            sc = J.parse(out)
-            for idx in range(first, first + per_round):
-                recs = sc.get(idx)
-                if not recs:
-                    violating.append((idx, {}, [{"judge": "harness", "why": "no trace for scenario %d" % idx, "step": 0}], []))
-                    continue
-                V, F = J.judge(recs)
-                total += 1
-                for k, v in F.items():
-                    if isinstance(v, int):
-                        agg[k] += v
-                    else:
-                        agg["%s=%s" % (k, v)] += 1
-                if V:
-                    ex = [" ".join([kind] + ["%s=%s" % kv for kv in d.items() if kv[0] != "raw"]) + " @%d" % step
-                          for (_, step, kind, d) in recs
-                          if kind not in ("PERSISTFULL", "MGRPERSIST") and not (kind == "BLOCK" and not d.get("txs"))]
-                    params = dict((k, v) for k, v in recs[0][3].items() if k != "raw") if recs[0][2] == "PARAMS" else {}
-                    violating.append((idx, params, V, ex[-160:]))
-            if not any(v[0] >= first and v[0] < first + per_round for v in violating):
-                os.remove(out)
+            jobs.append((binp, ctx.seed, first, per_round, os.path.join(ctx.tmp, "fwd_%d_%d.trace" % (rnd, sh))))
+    with multiprocessing.Pool(shards) as pool:
+        for (v, a, mi, n) in pool.imap_unordered(_fwd_worker, jobs):
+            violating += v
+            agg.update(a)
+            total += n
+            if len(items) < (4000 if ctx.tier == "quick" else 20000):
+                items += mi
+    # the scripted reproduction of finding F1 (deterministic; reported as KNOWN-FINDING while it reproduces)
+    from props.c02 import fwdjudge as J
+    outp = os.path.join(ctx.tmp, "fwd_script1.trace")
+    core.sh([binp, "script1", "7", "0", outp], cwd=ctx.tmp, timeout=600)
+    try:
+        sc1 = J.parse(outp)
+        V1, _ = J.judge(sc1.get(0, []))
+        cov_script = [v["key"] for v in V1]
+        if V1:
+            violating.append((-1, {"script": "script1"}, V1, []))
+    except Exception as ex:
+        cov_script = ["error: %r" % (ex,)]
+    agg["script1_violation_keys=" + ",".join(sorted(set(cov_script)))] += 1
+    violating.sort(key=lambda x: x[0])
+    items.sort(key=lambda x: x[0])
     ctx.timed("fwd_traces_s", _t.time() - t0)
     cov = dict(agg)
     cov["scenarios"] = total
-    return violating, cov
+    # ---- the model must accept the real traces
+    mism = []
+    if model_ok and items:
+        exprs = [FM.coq_expr(labels) for (_, labels, _) in items]
+        vals = ctx.coq_eval("corr_fwd", FM.IMPORTS, exprs, prelude=FM.PRELUDE, shards=min(16, max(1, len(exprs) // 20)))
+        nchecks = 0
+        for (idx, labels, checks), v in zip(items, vals):
+            obs = [[int(x) for x in re.findall(r"-?\d+", grp)] for grp in re.findall(r"\[([^\[\]]*)\]", v)]
+            nchecks += len(checks)
+            bad = FM.compare(obs, checks)
+            if bad:
+                mism.append({"scenario_index": idx, "labels": labels, "mismatches": bad[:4]})
+        cov["model_traces_checked"] = len(items)
+        cov["model_checks"] = nchecks
+        cov["model_mismatching_traces"] = len(mism)
+    return violating, cov, mism
 
 
 # ------------------------------------------------------------------ run
@@ -549,10 +602,12 @@ def run(ctx):
         ctx.obligations.append(("rs2v-generation", False, e))
     proved = False
     model_ok = False
+    fwd_model_ok = False
     if not gen_errs:
         model_ok, outm = ctx.coq_make(["Model/FwdAdmission.vo"])
         if not model_ok:
             ctx.log("model does not build:", outm[-1500:])
+        fwd_model_ok, outf = ctx.coq_make(["Model/Fwd.vo"])
         proved = ctx.prove("C02")
     ctx.trusted_base += [
         "Coq 8.16.1 kernel + vm_compute (no native_compute)",
@@ -563,9 +618,9 @@ def run(ctx):
     ctx.assumptions += ["hooks call the same functions the library calls (thin wrappers, add-only)"]
     dis, fails = functional(ctx, model_ok)
     n = sum(v for k, v in ctx.coverage.get("functional_cases", {}).items() if k != "config_chunks")
-    tviol, tcov = ([], {})
+    tviol, tcov, tmism = ([], {}, [])
     if HAVE_FWD:
-        tviol, tcov = trace_check(ctx)
+        tviol, tcov, tmism = trace_check(ctx, fwd_model_ok)
         ctx.coverage["fwd_trace_coverage"] = tcov
         ctx.trusted_base.append("harness h_fwd (scheduler, scripted persister with durable-snapshot model, block builder) and the judges of tools/props/c02/fwdjudge.py")
         ctx.assumptions += ["a restart finds, per monitor, a version at least as new as the newest one reported complete, and the most recently written manager",
@@ -586,21 +641,31 @@ def run(ctx):
         broken.append({"obligation": "Coq proof of Props/C02.v", "detail": getattr(ctx, "proof_failure", {})})
     if dis:
         broken.append({"correspondence": "h_fwdadm vs generated/hand model", "first_disagreements": dis[:5], "n": len(dis)})
+    if tmism:
+        broken.append({"correspondence": "h_fwd traces vs Model/Fwd.v", "first_disagreements": tmism[:3], "n": len(tmism)})
     for f in fails[:3]:
         ctx.violation("C02 admission fails on the implementation: %s: %s" % (f["function"], f["why"]),
                       {"broken": broken or "implementation-side judge", "failing_input": f,
                        "replay_cmd": "printf '%s\\n' | %s | grep '^R '" % ("\\n".join(f.get("lines", [f.get("line", "")])), ctx.bin_path("h_fwdadm"))},
                       True, key="adm:" + f["function"] + ":" + f["why"][:40])
-    for (idx, params, V, ex) in tviol[:3]:
+    n_before = len(ctx.violations)
+    # every distinct kind of violation is reported (a recorded finding must not hide another one)
+    seen_keys = set()
+    reported = 0
+    for (idx, params, V, ex) in tviol:
         v = V[0]
+        if v.get("key", v["judge"]) in seen_keys or reported >= 6:
+            continue
+        seen_keys.add(v.get("key", v["judge"]))
+        reported += 1
         ctx.violation("C02 fails on real nodes: %s: %s" % (v["judge"], v["why"][:300]),
                       {"broken": broken or "implementation-side trace judge", "judge": v["judge"], "scenario_index": idx, "scenario_params": params,
                        "all_violations": V[:5], "trace_tail": ex,
                        "replay_cmd": "%s one %d %d /tmp/c02.trace >/dev/null 2>&1; grep -v PERSISTFULL /tmp/c02.trace" % (ctx.bin_path("h_fwd"), ctx.seed, idx)},
-                      True, key="fwd:" + v["judge"])
+                      True, key="fwd:" + v.get("key", v["judge"]))
     if tviol:
         ctx.coverage["fwd_violating_scenarios"] = len(tviol)
-    if broken and not fails and not tviol:
+    if broken and not fails and len(ctx.violations) == n_before:
         what = "rs2v refused the changed source" if gen_errs else ("proof" if not proved else "correspondence")
         ctx.violation("C02 admission no longer shown: %s broken" % what,
                       {"broken": broken, "search": "implementation-side judges over %d boundary-biased and random evaluations found no failing input" % n}, False)
